@@ -2,6 +2,7 @@
 from .. import core
 from ..core import Failure
 from .. import graphs as G
+from .. import ghist
 
 
 def build(inp):
@@ -52,7 +53,17 @@ def check_scc(inp):
     return None
 
 
-CHECKS = {'scc': check_scc}
+def check_history(inp):
+    """Every compute_SCCs answer along an add_node/add_edge/query history on ONE graph object is the
+    decomposition of the graph as it is at that moment."""
+    r = ghist.run(inp)
+    if r is None:
+        return None
+    k, what, exp, got = r
+    return Failure('history', inp, exp, got, 'step %d (%r): %s' % (k, inp['ops'][k], what))
+
+
+CHECKS = {'scc': check_scc, 'history': check_history}
 
 
 def replay(ctx, rec):
@@ -142,6 +153,84 @@ def enum_shard(st, shard, nshards, payload):
                         return
 
 
+def _q_scc(i):
+    return [['scc']]
+
+
+def _q_mixed(i):
+    return [[['scc'], ['scc_partial', 1], ['scc_of', 'reverse', []], ['scc_of', 'clone', []],
+             ['scc_partial', 0], ['scc_of', 'subgraph', [0, 1, 2]]][i % 6], ['scc']][:1 + i % 2]
+
+
+def history_shard(st, shard, nshards, payload):
+    """The construction sequences of every digraph in scope (four edit orders) with a
+    compute_SCCs after every edit, at one chosen point, or twice at the end."""
+    idx = 0
+    for (n, step) in payload['scopes']:
+        for mask in masks_of(n, step):
+            edges = G.edges_of_mask(n, mask)
+            nt = nontrivial(n, edges)
+            for order in range(4):
+                edits = ghist.construction(n, mask, order)
+                variants = [('every', 0, _q_scc), ('every', 0, _q_mixed), ('twice', 0, _q_scc)]
+                if n <= payload['at_upto']:
+                    variants += [('at', k, _q_scc) for k in range(len(edits) + 1)]
+                else:
+                    variants += [('at', (mask + order) % (len(edits) + 1), _q_scc)]
+                for (mode, k, q) in variants:
+                    idx += 1
+                    if idx % nshards != shard:
+                        continue
+                    inp = {'naming': ('int', 'str', 'tuple', 'opaque')[(idx // nshards) % 4],
+                           'ops': ghist.interleave(edits, q, mode, k)}
+                    st.evaluations += 1
+                    if nt:
+                        st.nontrivial += 1
+                    st.bump('history: %s' % mode)
+                    st.bump('history: n=%d' % n)
+                    if nt and (idx // nshards) % 97 == 0:
+                        st.sample(inp, cls='history-%s-n%d' % (mode, n))
+                    f = check_history(inp)
+                    if f is not None and st.failure is None:
+                        st.failure = f
+                        return
+
+
+def history_random_shard(st, shard, nshards, payload):
+    def body(inp):
+        nq = sum(1 for op in inp['ops'] if op[0].startswith('scc'))
+        ne = sum(1 for op in inp['ops'] if op[0] in ('node', 'edge'))
+        nt = nq >= 2 and ne >= 3
+        st.random_case(inp, nt)
+        st.bump('random history: %d+ queries' % min(nq, 5))
+        if nt:
+            st.sample(inp, cls='random-history')
+        return check_history(inp)
+
+    strat = ghist.st_history(['scc', 'scc', 'scc_partial', 'scc_of', 'fork', 'clone'], max_nodes=7, max_ops=40)
+    f = core.hyp_run(payload['seed'] * 1000 + 500 + shard, strat, body, payload['n'])
+    if f is not None:
+        st.failure = f
+
+
+def _minimise_history(f):
+    """Greedy: drop operations while the history stays applicable and still fails."""
+    inp = dict(f.input)
+    ops = list(inp['ops'])
+    changed = True
+    while changed:
+        changed = False
+        for i in range(len(ops)):
+            cand = ops[:i] + ops[i + 1:]
+            if not ghist.valid_ops(cand):
+                continue
+            g = check_history(dict(inp, ops=cand))
+            if g is not None:
+                ops, f, changed = cand, g, True
+                break
+    return f
+
+
 def run(ctx):
     from hypothesis import strategies as hs
     ctx.rule = ('every labelled digraph on n nodes (adjacency bit mask) x 6 presentations '
@@ -172,6 +261,22 @@ def run(ctx):
     f = core.run_random(ctx, random_shard, 2000, 20000)
     if f is not None:
         ctx.violation(f)
+        return
+
+    # histories: the same graph OBJECT asked again after it grew
+    if ctx.thorough:
+        hp = {'scopes': [(0, 1), (1, 1), (2, 1), (3, 1), (4, 1)], 'at_upto': 3}
+        ctx.scopes.append('histories: construction sequences (4 edit orders) of every digraph with n<=4 nodes, '
+                          'compute_SCCs after every edit / at every single point (n<=3; one point for n=4) / twice')
+    else:
+        hp = {'scopes': [(0, 1), (1, 1), (2, 1), (3, 1), (4, 16)], 'at_upto': 3}
+        ctx.scopes.append('histories: construction sequences (4 edit orders) of every digraph with n<=3 nodes and every '
+                          '16th with 4, compute_SCCs after every edit / at every single point (n<=3) / twice')
+    f = core.run_sharded(ctx, history_shard, hp)
+    if f is None:
+        f = core.run_random(ctx, history_random_shard, 1600, 16000)
+    if f is not None:
+        ctx.violation(_minimise_history(f))
 
 
 def random_shard(st, shard, nshards, payload):
